@@ -7,7 +7,7 @@ import pyccolo as pyc
 import pyccolo.emit_event as ee
 from swread import read_switches, reset_switches
 
-CUR, LOG, DEPTH = [], [], [0]
+CUR, LOG, DEPTH, VIA = [], [], [0], ["assign"]
 
 
 def run_acts(acts):
@@ -16,7 +16,12 @@ def run_acts(acts):
         if k == "em":
             CUR.append(a)
             try:
-                pyc.exec("x = 0", {}, {})
+                if VIA[0] == "call" and DEPTH[0] == 0:
+                    # a top-level emission is the `call` event of a sandbox function; the emissions made by the handlers it reaches are AST events
+                    # (CPython itself does not trace code run by a trace function, so nested `call` events do not exist)
+                    pyc.exec("def trigger():\n    return 0\ntrigger()", {}, {})
+                else:
+                    pyc.exec("x = 0", {}, {})
             finally:
                 CUR.pop()
         elif k == "region":
@@ -33,12 +38,15 @@ def run_case(case, ci):
     del LOG[:]
     del CUR[:]
     DEPTH[0] = 0
+    VIA[0] = case.get("via", "assign")
     tracers = []
     for ti, td in enumerate(case["tracers"]):
         attrs = {"allow_reentrant_events": td["allow_re"], "multiple_threads_allowed": bool(td.get("multi", False))}
         for hi, hre in enumerate(td["handlers"]):
             def make(ti=ti, hi=hi):
                 def handler(self, ret, node, frame, evt, guard, **kw):
+                    if evt is pyc.call and frame.f_code.co_name != "trigger":
+                        return None
                     beh = CUR[-1]["tracers"][ti][hi]
                     LOG.append([DEPTH[0], beh["id"]])
                     DEPTH[0] += 1
@@ -50,7 +58,7 @@ def run_case(case, ci):
                         DEPTH[0] -= 1
                     return {0: None, 1: pyc.Skip, 2: pyc.SkipAll}[beh["ctl"]]
                 handler.__name__ = "h_%d_%d" % (ti, hi)
-                return pyc.register_handler(pyc.after_assign_rhs, reentrant=hre)(handler)
+                return pyc.register_handler((pyc.call, pyc.after_assign_rhs) if case.get("via") == "call" else pyc.after_assign_rhs, reentrant=hre)(handler)
             attrs["h_%d" % hi] = make()
         if td["propagate"]:
             attrs["should_propagate_handler_exception"] = lambda self, e, x: True
